@@ -11,7 +11,7 @@ import (
 func init() {
 	register(&propDef{
 		ID:          "C18",
-		Explanation: "Decides, for package lsp/jsonrpc2 (every function; go/cfg locksets and dominance, type-resolved): R1 every call of the Stream interface's Write holds one and the same write mutex of the connection (so whole frames are serialised) and all senders go through that one function; R2 in the framed stream's Write the length printed in the header is len() of the very byte slice passed to the following Write on the connection, with the Content-Length name and the blank-line separator as constants and no arithmetic on the length; R3 in the framed stream's Read the body buffer is make([]byte, length) with length parsed from the header, filled by io.ReadFull, on paths where length ≤ 0 and a missing header were rejected, and the header-line slice expressions are dominated by the `colon < 0` rejection; R4 in Call the reply channel is registered in the pending map (under its mutex) before the request is sent, has capacity ≥ 1, its removal is deferred, every access to the pending map holds its mutex, and the reader delivers a response only to the channel looked up by the response's own id; R5 the wait in Call selects on the reply and on ctx.Done(); also R3 the announced length has an upper bound before it sizes the allocation (a parse of at most 32 bits, or an explicit maximum test that dominates make), R4 the reply channel is made by the call itself (never recycled), and R6 DecodeMessage rejects no frame on a wire field that is optional (omitempty) and that this package's own encoder can leave null., R2 after a successful header write the body write follows on every path, and R7 no number parsed from the wire is narrowed by a conversion. R8 no goroutine of package jsonrpc2 writes to a stream's transport below the write lock (a frame is complete before the sender releases the lock); R9 the select in which a call waits for its response has no exit besides the response and the caller's context. NOT decided: all chunkings / schedules, JSON decoding of bodies.",
+		Explanation: "Decides, for package lsp/jsonrpc2 (every function; go/cfg locksets and dominance, type-resolved): R1 every call of the Stream interface's Write holds one and the same write mutex of the connection (so whole frames are serialised) and all senders go through that one function; R2 in the framed stream's Write the length printed in the header is len() of the very byte slice passed to the following Write on the connection, with the Content-Length name and the blank-line separator as constants and no arithmetic on the length; R3 in the framed stream's Read the body buffer is make([]byte, length) with length parsed from the header, filled by io.ReadFull, on paths where length ≤ 0 and a missing header were rejected, and the header-line slice expressions are dominated by the `colon < 0` rejection; R4 in Call the reply channel is registered in the pending map (under its mutex) before the request is sent, has capacity ≥ 1, its removal is deferred, every access to the pending map holds its mutex, and the reader delivers a response only to the channel looked up by the response's own id; R5 the wait in Call selects on the reply and on ctx.Done(); also R3 the announced length has an upper bound before it sizes the allocation (a parse of at most 32 bits, or an explicit maximum test that dominates make), R4 the reply channel is made by the call itself (never recycled), and R6 DecodeMessage rejects no frame on a wire field that is optional (omitempty) and that this package's own encoder can leave null., R2 after a successful header write the body write follows on every path, and R7 no number parsed from the wire is narrowed by a conversion. R8 no goroutine of package jsonrpc2 writes to a stream's transport below the write lock (a frame is complete before the sender releases the lock); R9 the select in which a call waits for its response has no exit besides the response and the caller's context. NOT decided: all chunkings / schedules, JSON decoding of bodies. R10 no value holding a sync primitive by value is copied in package jsonrpc2 (a copied write lock excludes nobody); R11 the id decoder decodes into an integer or a string, never into json.Number or an interface (both accept the other JSON form: the string id \"7\" would become the number 7).",
 		Assumptions: []string{"io.ReadFull returns an error unless exactly len(buf) bytes were read", "sync.Mutex provides mutual exclusion"},
 		Trusted:     []string{"go/types", "x/tools go/packages, go/cfg"},
 		Run:         runC18,
@@ -455,7 +455,7 @@ func runC18(c *Ctx) {
 							if isHeader(y.Args[0]) {
 								headerWrite = y
 							}
-							if isData(y.Args[0]) && headerWrite != nil && fc.dominates(headerWrite, y) {
+							if isData(y.Args[0]) && headerWrite != nil && fc.happensBefore(headerWrite, y) {
 								follows = "written by a later Write that the header write dominates"
 							}
 						}
@@ -937,7 +937,7 @@ func runC18(c *Ctx) {
 		})
 		okOrder := len(sends) > 0
 		for _, s := range sends {
-			if !fc.dominates(store, s) {
+			if !fc.happensBefore(store, s) {
 				okOrder = false
 			}
 		}
